@@ -114,6 +114,7 @@ func prodFuncs(c *Ctx, rels ...string) []*ssa.Function {
 // ---- C11 -------------------------------------------------------------------------------------
 
 func checkC11(c *Ctx, r *Report, tier string) {
+	round5(c, r, "C11")
 	r.Rule("C11.R1", "no dropped error: no function returns a nil error from the non-nil side of an error test without handing the error on", 1)
 	r.Rule("C11.R2", "a non-blocking notification cannot be lost: where Notify is called with blocking=false on a notificator, every Create(n) on the same owner has a constant n >= 1", 1)
 	r.Rule("C11.R3", "id pairing: the NotificationId placed in a proposal is the id returned by the Create of the same activation, Remove(id) is deferred, the apply side notifies the id parsed from that field, and the value it notifies is the error of the index operation of that path (never a constant on a path that has one); ids are fresh random uuids; a channel looked up in the notificator is only used under its mutex", 10)
@@ -898,7 +899,7 @@ func deadlineCtx(v ssa.Value) bool {
 // deadlineCtxIn: like deadlineCtx, but a context parameter of fn counts when every static caller passes a deadline context.
 func deadlineCtxIn(c *Ctx, fn *ssa.Function, v ssa.Value, depth int) bool {
 	os := origins(v, originOpt{})
-	if len(os) == 0 || depth > 3 {
+	if len(os) == 0 || depth > 6 {
 		return false
 	}
 	for _, o := range os {
@@ -1276,6 +1277,7 @@ func sendCounts(f *ssa.Function, match func(*ssa.Send) bool) (int, int) {
 // ---- C09 -------------------------------------------------------------------------------------
 
 func checkC09(c *Ctx, r *Report, tier string) {
+	round5(c, r, "C09")
 	_ = tier
 	r.Rule("C09.R5", "each node is asked once: the worker opens the node's result stream at one site, outside any loop", 1)
 	streamOpenedOnce(c, r, "C09.R5")
